@@ -252,8 +252,10 @@ pub fn run(ctx: &Ctx) {
         // two shards spend part of their budget on long pauses (one variant per conversation in
         // the quick tier, up to four in the thorough one)
         if ctx.shard % 8 == 5 && n > 2 && long_pauses_done < if ctx.thorough { 24 } else { 1 } {
-            for _ in 0..(if ctx.thorough { 4 } else { 1 }) {
-                let at = rng.range(1, n - 1);
+            for vi in 0..(if ctx.thorough { 4 } else { 1 }) {
+                // the first one inside the first head (whatever the conversation, the server is
+                // then in the middle of reading a request), the others anywhere
+                let at = if vi == 0 { rng.range(1, (n - 1).min(40)) } else { rng.range(1, n - 1) };
                 run_long_pause(ctx, &env, &prop, cseed, &base, &bc, at);
                 long_pauses_done += 1;
             }
